@@ -39,17 +39,17 @@ Definition f_error_reason := bs "error_reason".
 Definition v_true := bs "true".
 Definition v_flash := bs "x".            (* flash texts are canonicalised by the harness *)
 
-(* configured paths (the harness sets exactly these) *)
-Definition p_login_ok := bs "/ok/login".
-Definition p_confirm_ok := bs "/ok/confirm".
-Definition p_confirm_notok := bs "/no/confirm".
-Definition p_lock_notok := bs "/no/lock".
-Definition p_logout_ok := bs "/ok/logout".
-Definition p_oauth_ok := bs "/ok/oauth2".
-Definition p_oauth_notok := bs "/no/oauth2".
-Definition p_recover_ok := bs "/ok/recover".
-Definition p_register_ok := bs "/ok/register".
-Definition p_2fa_email_notok := bs "/no/2fa-email".
+(* configured paths: the ones the harness sets, or authboss.New()'s defaults (config.go Defaults: all "/") *)
+Definition p_login_ok_of (c : config) := if c_default_paths c then bs "/" else bs "/ok/login".
+Definition p_confirm_ok_of (c : config) := if c_default_paths c then bs "/" else bs "/ok/confirm".
+Definition p_confirm_notok_of (c : config) := if c_default_paths c then bs "/" else bs "/no/confirm".
+Definition p_lock_notok_of (c : config) := if c_default_paths c then bs "/" else bs "/no/lock".
+Definition p_logout_ok_of (c : config) := if c_default_paths c then bs "/" else bs "/ok/logout".
+Definition p_oauth_ok_of (c : config) := if c_default_paths c then bs "/" else bs "/ok/oauth2".
+Definition p_oauth_notok_of (c : config) := if c_default_paths c then bs "/" else bs "/no/oauth2".
+Definition p_recover_ok_of (c : config) := if c_default_paths c then bs "/" else bs "/ok/recover".
+Definition p_register_ok_of (c : config) := if c_default_paths c then bs "/" else bs "/ok/register".
+Definition p_2fa_email_notok_of (c : config) := if c_default_paths c then bs "/" else bs "/no/2fa-email".
 Definition root_url := bs "http://site.test".
 
 Definition zero_time : Z := zero_instant.     (* time.Time{} in unix seconds *)
@@ -75,6 +75,16 @@ Section H.
 Variable E : env.
 Notation C := (e_C E).
 Notation cfg := (e_cfg E).
+Notation p_login_ok := (p_login_ok_of (e_cfg E)).
+Notation p_confirm_ok := (p_confirm_ok_of (e_cfg E)).
+Notation p_confirm_notok := (p_confirm_notok_of (e_cfg E)).
+Notation p_lock_notok := (p_lock_notok_of (e_cfg E)).
+Notation p_logout_ok := (p_logout_ok_of (e_cfg E)).
+Notation p_oauth_ok := (p_oauth_ok_of (e_cfg E)).
+Notation p_oauth_notok := (p_oauth_notok_of (e_cfg E)).
+Notation p_recover_ok := (p_recover_ok_of (e_cfg E)).
+Notation p_register_ok := (p_register_ok_of (e_cfg E)).
+Notation p_2fa_email_notok := (p_2fa_email_notok_of (e_cfg E)).
 Notation O := (e_O E).
 Notation req := (e_req E).
 Notation cook := (e_cook E).
@@ -1128,6 +1138,16 @@ Section H2.
 Variable E : env.            (* e_sess E = the session read at request start *)
 Notation C := (e_C E).
 Notation cfg := (e_cfg E).
+Notation p_login_ok := (p_login_ok_of (e_cfg E)).
+Notation p_confirm_ok := (p_confirm_ok_of (e_cfg E)).
+Notation p_confirm_notok := (p_confirm_notok_of (e_cfg E)).
+Notation p_lock_notok := (p_lock_notok_of (e_cfg E)).
+Notation p_logout_ok := (p_logout_ok_of (e_cfg E)).
+Notation p_oauth_ok := (p_oauth_ok_of (e_cfg E)).
+Notation p_oauth_notok := (p_oauth_notok_of (e_cfg E)).
+Notation p_recover_ok := (p_recover_ok_of (e_cfg E)).
+Notation p_register_ok := (p_register_ok_of (e_cfg E)).
+Notation p_2fa_email_notok := (p_2fa_email_notok_of (e_cfg E)).
 Notation O := (e_O E).
 Notation req := (e_req E).
 Notation cook := (e_cook E).
@@ -1152,18 +1172,30 @@ Definition expire_mw : M amap :=
     else put_session k_last_action (zdec now) ;;; ret sess0
   else ret sess0.
 
+(* the session the rest of the request sees after remember.Middleware: when Authenticate logged the
+   cookie's owner in (it is the only thing that sets the context pid before the access middleware)
+   the request's session state is overlaid with the two values it wrote for the response, so that
+   IsFullyAuthed downstream sees the half-auth mark (remember.go rememberedState) *)
+Definition remembered_view (s : amap) : M amap :=
+  h <- get_h ;;
+  match h_cpid h with
+  | Some pid => ret (aput k_halfauth v_true (aput k_uid pid s))
+  | None => ret s
+  end.
+
 (* documented stack: LoadClientState -> [expire] -> [remember] -> Middleware2 -> [lock] -> [confirm] -> app *)
 Definition app_stack (full tf : bool) (fr : failresp) (lockmw confirmmw remembermw expiremw : bool) : M unit :=
   sess <- (if expiremw then expire_mw else ret sess0) ;;
   let E' := with_sess E sess in
-  (if remembermw then remember_mw E' else ret tt) ;;;
-  ok <- auth_middleware E' false full tf fr ;;
+  sess2 <- (if remembermw then remember_mw E' ;;; remembered_view sess else ret sess) ;;
+  let E'' := with_sess E sess2 in
+  ok <- auth_middleware E'' false full tf fr ;;
   if negb ok then ret tt else
-  ok <- (if lockmw then lock_mw E' else ret true) ;;
+  ok <- (if lockmw then lock_mw E'' else ret true) ;;
   if negb ok then ret tt else
-  ok <- (if confirmmw then confirm_mw E' else ret true) ;;
+  ok <- (if confirmmw then confirm_mw E'' else ret true) ;;
   if negb ok then ret tt else
-  app_handler E'.
+  app_handler E''.
 
 (* module routes behind MountedMiddleware2(ab, true, reqs, unauthed) *)
 Definition behind (full : bool) (h : M unit) : M unit :=
